@@ -107,7 +107,11 @@ fn roundtrip<const N: usize>() {
         std::mem::forget(r1);
     }
     assert!(buf.len() == used, "control length != sum of CMSG_SPACE of the pushed messages");
+    assert!(buf.len() <= N, "control length exceeds the buffer");
+    kani::cover!(v1 != 0 && l1 != l2);
     if pushed == 0 {
+        let fits0 = if S4 <= N { 1 } else { 0 };
+        assert!(fits0 == 0, "message that fits was rejected");
         return;
     }
     let bytes: &[u8] = &buf;
@@ -148,9 +152,8 @@ fn roundtrip<const N: usize>() {
     }
     assert!(it.next().is_none(), "phantom message after the last one");
     // exactly the number of messages the buffer has room for
-    let fits = if S4 + S8 + S4 <= N { 3 } else if S4 + S8 <= N { 2 } else { 1 };
+    let fits = if S4 + S8 + S4 <= N { 3 } else if S4 + S8 <= N { 2 } else if S4 <= N { 1 } else { 0 };
     assert!(pushed == fits);
-    kani::cover!(pushed == fits && v1 != 0);
 }
 
 #[kani::proof]
@@ -173,6 +176,21 @@ pub fn c13_q_anc_two() {
 // bound: AncillaryBuf<2*CMSG_SPACE(4)+CMSG_SPACE(8)>: exactly three messages
 pub fn c13_q_anc_three() {
     roundtrip::<{ S4 + S8 + S4 }>();
+}
+
+#[kani::proof]
+#[kani::unwind(82)]
+// bound: AncillaryBuf<20>: at least CMSG_LEN(4) but less than CMSG_SPACE(4) bytes -- not a multiple of the cmsg alignment
+// claim: a message whose CMSG_SPACE does not fit is rejected with BufferTooSmall; the control length never exceeds the buffer
+pub fn c13_q_anc_unaligned_small() {
+    roundtrip::<20>();
+}
+
+#[kani::proof]
+#[kani::unwind(82)]
+// bound: AncillaryBuf<CMSG_SPACE(4)+CMSG_SPACE(8)+20>: two messages fit, the third fits by CMSG_LEN but not by CMSG_SPACE
+pub fn c13_q_anc_unaligned_third() {
+    roundtrip::<{ S4 + S8 + 20 }>();
 }
 
 #[kani::proof]
